@@ -50,6 +50,23 @@ def cases(tier):
         size = 60
         for i in range(0, len(progs), size):
             out.append({"name": "%s/%d" % (base, i), "base": base, "progs": progs[i:i + size]})
+    # statements NumPy REJECTS: assigning a shape that would need a copy (non-contiguous memory). MyGrad must reject them too and leave
+    # every tensor as it was (the state is compared with the twin after the rejected statement)
+    for base in ("mat23", "mat23F", "mat32F"):
+        shape = vp.BASES[base]
+        fo = base in vp.F_ORDERED
+        progs = []
+        for pre in ([], ["v = t.T"], ["v = t[::-1]"], ["v = t[:, ::2]"], ["v = +t"], ["v = t.T", "w = v[1:]"]):
+            if not vp.well_typed(pre, shape, fo):
+                continue
+            names = ["t"] + [l.split(" = ")[0] for l in pre]
+            for tgt in names:
+                for shp in ("(6,)", "(3, 2)", "(2, 3)", "(1, 6)"):
+                    last = "%s.shape = %s" % (tgt, shp)
+                    if vp.well_typed(pre, shape, fo) and not vp.well_typed(pre + [last], shape, fo) and _numpy_rejects_with_attribute_error(pre, last, shape, fo):
+                        progs.append(pre + [last])
+        for i in range(0, len(progs), 40):
+            out.append({"name": "%s/rejected-shape/%d" % (base, i), "base": base, "progs": progs[i:i + 40], "last_rejected": True})
     # constant-flag family: constant / non-constant base, a view created with an explicit constant= (either way), an
     # ordinary view of the base or of that view, then one in-place statement on any member of the family
     for base in ("flat6", "mat23"):
@@ -77,7 +94,22 @@ def cases(tier):
     return out
 
 
-def run_program(mg, base, lines, res, check_each=True, const_base=False):
+def _numpy_rejects_with_attribute_error(pre, last, shape, fo):
+    S = vp.Setup.__new__(vp.Setup)
+    S.base_shape, S.f_ordered = shape, fo
+    env = vp.Setup.env_float(S)
+    try:
+        for ln in pre:
+            vp.run_line(ln, env, twin=True)
+        vp.run_line(last, env, twin=True)
+    except AttributeError:
+        return True  # "Incompatible shape for in-place modification"
+    except Exception:
+        return False
+    return False
+
+
+def run_program(mg, base, lines, res, check_each=True, const_base=False, last_rejected=False):
     engine = eng_mod.Engine(skip_ties=True)
     engine.reset_fn = lib.reset_state
     shape = vp.BASES[base]
@@ -89,8 +121,17 @@ def run_program(mg, base, lines, res, check_each=True, const_base=False):
         consts = {"t": envT["t"].constant}
         report = []
         for i, ln in enumerate(lines):
-            vp.run_line(ln, envA, twin=True)
-            vp.run_line(ln, envT)
+            if last_rejected and i == len(lines) - 1:
+                # NumPy rejects this statement (checked when the case was generated): MyGrad must raise and change nothing
+                try:
+                    vp.run_line(ln, envT)
+                    report.append((i, [("accepted", ln, "NumPy rejects this statement (AttributeError), MyGrad accepted it")], []))
+                    return report
+                except Exception:  # noqa
+                    pass
+            else:
+                vp.run_line(ln, envA, twin=True)
+                vp.run_line(ln, envT)
             for n, tt in vp.live_tensors(envT, mg).items():
                 ids.setdefault(n, id(tt))
                 consts.setdefault(n, tt.constant)
@@ -114,7 +155,7 @@ def run_program(mg, base, lines, res, check_each=True, const_base=False):
     return None
 
 
-def replay_source(base, lines, const_base=False):
+def replay_source(base, lines, const_base=False, last_rejected=False):
     shape = tuple(vp.BASES[base])
     return '''import sys, re
 import numpy as np
@@ -130,6 +171,7 @@ t0 = (rng.rand(*%r[::-1]) + 0.5).T if %r else rng.rand(*%r) + 0.5; yv0 = rng.ran
 T = {"mg": mg, "np": np, "t": mg.Tensor(t0, constant=%r), "y0": mg.Tensor(1.25), "yv": mg.Tensor(yv0), "y2": mg.Tensor(y20), "k": np.array(0.75), "c1": np.array(2.5), "c2": np.array(1.5)}
 A = {"np": np, "t": t0.copy(order="K"), "y0": np.array(1.25), "yv": yv0.copy(), "y2": y20.copy(), "k": np.array(0.75), "c1": np.array(2.5), "c2": np.array(1.5)}
 LINES = %r
+LAST_REJECTED = %r
 NAMES = ("t", "v", "w", "u")
 ids = {}; consts = {}; bad = []
 def tgt(line):
@@ -139,6 +181,11 @@ def tgt(line):
     return h
 try:
     for i, ln in enumerate(LINES):
+        if LAST_REJECTED and i == len(LINES) - 1:
+            try:
+                exec(ln, T); bad.append((i, "accepted a statement NumPy rejects"))
+            except Exception as e: print("rejected:", type(e).__name__)
+            ln = "pass"
         if "Mt" in ln or "Mb" in ln:
             A["Mt"] = T["Mt"] = mask_for(A[tgt(ln)].shape); A["Mb"] = T["Mb"] = mask_for(A[tgt(ln)].shape[-1:])
         exec(re.sub(r",\\s*constant=(True|False|None)", "", re.sub(r"\\b(\\w+)\\.copy\\(\\)", r"np.copy(\\1)", ln)).replace("mg.", "np."), A)
@@ -165,7 +212,7 @@ except Exception as e:
     bad.append(("raised", type(e).__name__, str(e)[:300]))
 print(bad)
 print('REPRODUCED' if bad else 'NOT-REPRODUCED'); sys.exit(1 if bad else 0)
-''' % (shape, base in vp.F_ORDERED, shape, shape[-1], bool(const_base), list(lines))
+''' % (shape, base in vp.F_ORDERED, shape, shape[-1], bool(const_base), list(lines), bool(last_rejected))
 
 
 def run_case(spec, tier):
@@ -174,7 +221,7 @@ def run_case(spec, tier):
     res["programs"] = 0
     for k, lines in enumerate(spec["progs"]):
         res["programs"] += 1
-        r = run_program(mg, spec["base"], lines, res, const_base=spec.get("const_base", False))
+        r = run_program(mg, spec["base"], lines, res, const_base=spec.get("const_base", False), last_rejected=spec.get("last_rejected", False))
         if r is None:
             continue
         kind, msg, idx = r
@@ -182,7 +229,7 @@ def run_case(spec, tier):
             res["status"] = common.INCONCLUSIVE
             res["notes"].append("%s: %s" % ("; ".join(lines), msg))
             continue
-        path = common.write_replay(PROP, gradcase._safe("%s_%d" % (spec["name"], k)), replay_source(spec["base"], lines, spec.get("const_base", False)))
+        path = common.write_replay(PROP, gradcase._safe("%s_%d" % (spec["name"], k)), replay_source(spec["base"], lines, spec.get("const_base", False), spec.get("last_rejected", False)))
         ok, out = common.run_replay(path)
         if ok:
             res["status"] = common.VIOLATION
